@@ -26,6 +26,8 @@ impl CrashContext {
 
             out.fs = ((gregs[REG_CSGSFS as usize] >> 32) & 0xffff) as u16;
             out.gs = ((gregs[REG_CSGSFS as usize] >> 16) & 0xffff) as u16;
+            // The kernel keeps ss in the top 16 bits of the same slot
+            out.ss = ((gregs[REG_CSGSFS as usize] >> 48) & 0xffff) as u16;
 
             out.eflags = gregs[REG_EFL as usize] as u32;
 
